@@ -10,7 +10,7 @@ THEOREMS = ["C20_equiv", "C20_timely", "C20_prompt", "C20_error_recovers"]
 SIMPLE = ["x = 1", "x = x + 1", "x", "y = [1, 2]", "y.append(x)", "y", "print('p', x)", "None", "'s'", "x * 2", "z = (x, y)", "z", "_", "import math", "math.floor(2.5)", "del z",
           "# just a comment", "x = 5  # trailing comment", "1 if x else 2", "a, b = 1, 2", "a + b", "(lambda q: q + 1)(x)"]
 MULTI = [["if x:", "    x = x + 10", "else:", "    x = 0"], ["for i in range(3):", "    x = x + i"], ["def f(a):", "    return a * 2"], ["f(4)"],
-         ["while x > 100:", "    x = x - 100"], ["y = [1,", "     2,", "     3]"], ["s = '''a", "b'''"], ["t = (x,", "", "     2)"], ["class K:", "    v = 3", "    def m(self):", "        return self.v"],
+         ["while x > 100:", "    x = x - 100"], ["y = [1,", "     2,", "     3]"], ["s = '''a", "b'''"], ["s2 = '''a", "", "b", "", "'''"], ["def g2():", "    '''doc", "", "    string'''", "    return 7"], ["g2.__doc__ is None, s2"], ["s3 = \"\"\"", "", "x\"\"\""], ["s3"], ["t = (x,", "", "     2)"], ["class K:", "    v = 3", "    def m(self):", "        return self.v"],
          ["K().m()"], ["for i in range(2):", "    i"], ["if x:", "    for j in range(2):", "        x = x + j", "    x"], ["try:", "    1 / 0", "except ZeroDivisionError:", "    x = -1"],
          ["with_value = {'a':", "  1}"], ["def g():", "    '''doc", "    string'''", "    return 7"], ["g()"]]
 MULTI_ERR = [["if x:", "    y = = 1"], ["for i in range(2):", "    x +", "    x = 1"], ["def h(a):", "    return )"], ["while x:", "    pass", "  bad_dedent = 1"], ["if x:", "    x = 7", "    1 / 0"], ["y = [1,", "     2 2]"]]
@@ -40,7 +40,7 @@ def gen_session(rnd):
         elif r < 0.97:
             m = rnd.choice(MULTI_ERR); lines += m + [""]; stmts.append("\n".join(m) + "\n")
         else:
-            lines.append(""); 
+            lines.append(rnd.choice(["", "", "   ", "\t"]))      # nothing entered (empty, or white space only) at the primary prompt
     return lines, stmts
 
 REF = r'''
@@ -90,13 +90,13 @@ def coq_check(name, rows):
       "(* per session: the fed lines as (is_blank, verdict-if-compiled) and the prompts observed after each line *)\n"
       "Definition vd (n : nat) : verdict := match n with 1 => Complete | 2 => Incomplete | 3 => CompileError | _ => Ignored end.\n"
       "(* replay: the verdict of the real compiler is consumed when the model asks for one *)\n"
-      "Fixpoint replay (st : rstate) (ls : list (bool * nat)) (k : nat) : list bool :=\n"
+      "Fixpoint replay (st : rstate) (ls : list (nat * nat)) (k : nat) : list bool :=\n"
       "  match ls with [] => [] | (b, v) :: r =>\n"
-      "    let l := if b then blank else S k in\n"
+      "    let l := match b with 0 => blank | 1 => white | _ => S (S k) end in\n"
       "    let '(st', _) := run_line (fun _ => vd v) st l in continuation st' :: replay st' r (S k) end.\n"
       "Definition beql (a b : list bool) := if list_eq_dec Bool.bool_dec a b then true else false.\n"
-      "Definition cases : list (list (bool * nat) * list bool) := [\n" + ";\n".join(rows) + "].\n"
-      "Fixpoint bad (i : nat) (l : list (list (bool * nat) * list bool)) : list nat := match l with [] => [] | (ls, obs) :: r => if beql (replay idle ls 0) obs then bad (S i) r else i :: bad (S i) r end.\n"
+      "Definition cases : list (list (nat * nat) * list bool) := [\n" + ";\n".join(rows) + "].\n"
+      "Fixpoint bad (i : nat) (l : list (list (nat * nat) * list bool)) : list nat := match l with [] => [] | (ls, obs) :: r => if beql (replay idle ls 0) obs then bad (S i) r else i :: bad (S i) r end.\n"
       "Definition M := Eval vm_compute in bad 0 cases.\nPrint M.\n")
     rc, out = vlib.coqc_run(name, text, timeout=400)
     if rc != 0: return None, out[-1200:]
@@ -129,7 +129,7 @@ def check(res):
         if any(l == "" for l in lines): nontrivial += 1
         # tie: prompts
         comment = lambda ln: ln.strip().startswith("#")
-        rows.append("([%s], [%s])" % ("; ".join("(%s, %d)" % ("true" if ln == "" else "false", 4 if (x["verdict"] == "error" and comment(ln) and x["prompt"] == ">>> " and not x["prints"]) else vmap[x["verdict"]]) for ln, x in zip(lines, a["lines"])),
+        rows.append("([%s], [%s])" % ("; ".join("(%s, %d)" % ("0" if ln == "" else ("1" if ln.strip() == "" else "2"), 4 if (x["verdict"] == "error" and comment(ln) and x["prompt"] == ">>> " and not x["prints"]) else vmap[x["verdict"]]) for ln, x in zip(lines, a["lines"])),
                                        "; ".join("true" if x["prompt"] == "... " else "false" for x in a["lines"])))
         # oracle: per statement echo/stdout; statements end where the REPL returns to '>>> ' after a compile
         got_echo = [p for x in a["lines"] for p in x["prints"] if not p.startswith("Compile error")]
